@@ -69,7 +69,8 @@ def run_pyvc(pid, prop, tier):
     fuel = 2
     timeout = 10000 if tier == 'quick' else 60000
     for fam in prop['families']:
-        rep = verify_family(fam, fuel=fuel, timeout=timeout, serves=pid)
+        rep = verify_family(fam, fuel=fuel, timeout=timeout, serves=pid, refute_fuel=3 if tier == 'quick' else 4,
+                            deep=(tier != 'quick'))
         out['assumptions'].extend(rep['assumptions'])
         out['trusted'].extend(rep['trusted'])
         for meta, results in rep['units']:
